@@ -188,6 +188,15 @@ def check_rk_reject_shrinks(F, run):
         run.check(good, "R5.4", dp, "reject-shrinks:" + pp(w)[:44], F.loc(b, w),
                   "on a rejected step `%s` changes dt by the factor %s, which is not provably <= 1: the same step can be retried forever without MinimumTimeDeltaExceeded"
                   % (pp(w)[:60], sp.simplify(f2)), sample="RK reject path: %s (factor %s)" % (pp(w)[:40], sp.simplify(f2)))
+        if good:
+            try:
+                strict = c01.strict_lt_one(f2, s_)
+            except Exception:
+                strict = False
+            run.check(strict, "R5.4", dp, "reject-shrinks-by-a-margin:" + pp(w)[:44], F.loc(b, w),
+                      "on a rejected step `%s` changes dt by the factor %s (error = tolerance·(1+s), s > 0), which is below 1 but not bounded away from 1: a step that "
+                      "just fails is retried with an almost unchanged step, many times over (no safety factor)" % (pp(w)[:60], sp.simplify(f2)),
+                      sample="RK reject path: %s shrinks by a margin" % pp(w)[:40])
     run.floor("R5.4", dp, "controller writes feasible on a rejected step", n_checked, 2, F.loc(b))
 
 
@@ -271,10 +280,12 @@ def check_controller_constants(F, run):
         for w in walk(b["body"], into_closures=False):
             if w.get("k") in ("Assign", "AssignOp") and place(w["l"]) == "self.dt" and c02.accept_guard(b, w) < 0:
                 n += 1
-                cls, detail = c01.classify_dt_write(F, b, w)
-                run.check(cls == "shrink", "R5.4", sname + "Solver::step", "reject-shrinks:" + pp(w)[:40], F.loc(b, w),
+                cls, detail = c01.classify_dt_write(F, b, w, strict=True)
+                run.check(cls in ("shrink", "weak-shrink"), "R5.4", sname + "Solver::step", "reject-shrinks:" + pp(w)[:40], F.loc(b, w),
                           "on a rejected step `%s` does not provably shrink the step (%s): the retry may loop or grow" % (pp(w)[:50], detail),
                           sample="%s reject path: %s (%s)" % (sname, pp(w)[:40], detail))
+                run.check(cls != "weak-shrink", "R5.4", sname + "Solver::step", "reject-shrinks-by-a-margin:" + pp(w)[:40], F.loc(b, w),
+                          "on a rejected step `%s`: %s — a step that just fails is retried with an almost unchanged step, each retry costing a full restart" % (pp(w)[:50], detail))
         run.floor("R5.4", sname + "Solver::step", "step-size writes on the reject path", n, 1, F.loc(b))
     # constants of the multistep solvers
     for kind, impl, O, names in (("adams", M.ADAMS_IMPLS["AdamsCoefficients5"][0], 5, ("one_tenth", "half", "two", "four", "one_sixth")),
